@@ -129,6 +129,24 @@ pub fn mutate(rng: &mut Rng, v: Version, img: &mut Vec<u8>) -> String {
             format!("DIFAT chain shape {} through sectors {} {} {}", shape, a, b, c)
         }
         45..=54 => chain_mutation(rng, v, img),
+        55..=61 => {
+            // header fields by name: counts, first sectors, DIFAT slots, version / shifts
+            let (off, width): (usize, usize) = *rng.pick(&[
+                (40usize, 4usize), (44, 4), (44, 4), (48, 4), (56, 4), (60, 4), (64, 4), (64, 4), (68, 4), (72, 4), (72, 4),
+                (76, 4), (80, 4), (76 + 4 * 108, 4), (24, 2), (26, 2), (28, 2), (30, 2), (32, 2),
+            ]);
+            if off + width > img.len() {
+                return "noop".into();
+            }
+            let val: u32 = match rng.below(6) {
+                0 => rng.below(nsect as u64 + 3) as u32,
+                1 => *rng.pick(&[0x100u32, 0x1000, 0x2_0000, 0x10_0000, 0x00ff_ffff, 0x0fff_ffff]),
+                2 => (nsect as u32).wrapping_mul(128),
+                _ => *rng.pick(VALUES),
+            };
+            img[off..off + width].copy_from_slice(&val.to_le_bytes()[..width]);
+            format!("header field at {} ({} bytes) := {:#x}", off, width, val)
+        }
         10..=14 => {
             // a single byte anywhere
             let off = rng.below(img.len() as u64) as usize;
@@ -138,9 +156,9 @@ pub fn mutate(rng: &mut Rng, v: Version, img: &mut Vec<u8>) -> String {
         }
         r => {
             // a 32-bit (or 16-bit) field in the header, FAT sector, directory or elsewhere
-            let region = if r < 35 {
+            let region = if r < 66 {
                 (24usize.min(img.len()), (76 + 16).min(img.len()))
-            } else if r < 62 {
+            } else if r < 72 {
                 (sl.min(img.len()), (sl + 64).min(img.len())) // first FAT cells
             } else if r < 90 {
                 ((2 * sl).min(img.len()), (2 * sl + 128 * 6).min(img.len())) // first directory entries
